@@ -9,6 +9,7 @@ import (
 	"sort"
 	"strconv"
 	"strings"
+	"sync"
 	"time"
 	"unicode/utf8"
 
@@ -19,6 +20,31 @@ import (
 // These may persist between runs because a regular expression object
 // is essentially constant.
 var regCache map[string]*regexp.Regexp
+
+// regCacheLock guards regCache, which is shared by every evaluator
+// in the process and so may be used from several goroutines at once.
+var regCacheLock sync.RWMutex
+
+// compileRegexp returns the compiled form of the given regular
+// expression, consulting and updating the cache.
+func compileRegexp(reg string) (*regexp.Regexp, error) {
+	regCacheLock.RLock()
+	r, ok := regCache[reg]
+	regCacheLock.RUnlock()
+	if ok {
+		return r, nil
+	}
+
+	r, err := regexp.Compile(reg)
+	if err != nil {
+		return nil, err
+	}
+
+	regCacheLock.Lock()
+	regCache[reg] = r
+	regCacheLock.Unlock()
+	return r, nil
+}
 
 // init ensures that our regexp cache is populated
 func init() {
@@ -252,22 +278,13 @@ func fnMatch(args []object.Object) object.Object {
 	str := args[0].Inspect()
 	reg := args[1].Inspect()
 
-	// Look for the compiled regular-expression object in our cache.
-	r, ok := regCache[reg]
-	if !ok {
+	// Get the compiled regular-expression object, via our cache.
+	r, err := compileRegexp(reg)
 
-		// OK it wasn't found, so compile it.
-		var err error
-		r, err = regexp.Compile(reg)
-
-		// Ensure it compiled
-		if err != nil {
-			fmt.Printf("Invalid regular expression %s %s", reg, err.Error())
-			return &object.Boolean{Value: false}
-		}
-
-		// store in the cache for next time
-		regCache[reg] = r
+	// Ensure it compiled
+	if err != nil {
+		fmt.Printf("Invalid regular expression %s %s", reg, err.Error())
+		return &object.Boolean{Value: false}
 	}
 
 	// Split the input by newline.
@@ -513,22 +530,13 @@ func fnReplace(args []object.Object) object.Object {
 	replace := args[2].Inspect()
 
 
-	// Look for the compiled regular-expression object in our cache.
-	r, ok := regCache[reg]
-	if !ok {
+	// Get the compiled regular-expression object, via our cache.
+	r, err := compileRegexp(reg)
 
-		// OK it wasn't found, so compile it.
-		var err error
-		r, err = regexp.Compile(reg)
-
-		// Ensure it compiled
-		if err != nil {
-			fmt.Printf("Invalid regular expression %s %s", reg, err.Error())
-			return &object.Boolean{Value: false}
-		}
-
-		// store in the cache for next time
-		regCache[reg] = r
+	// Ensure it compiled
+	if err != nil {
+		fmt.Printf("Invalid regular expression %s %s", reg, err.Error())
+		return &object.Boolean{Value: false}
 	}
 
 	out := r.ReplaceAll([]byte(str), []byte(replace))
